@@ -7,6 +7,10 @@ import Pyunicorn.Lemmas.RelabelGeoRec
 import Pyunicorn.Lemmas.RelabelR4
 import Pyunicorn.Lemmas.RelabelRec4
 import Pyunicorn.Lemmas.RelabelAssort
+import Pyunicorn.Lemmas.RelabelR5
+import Pyunicorn.Lemmas.RelabelRec5
+import Pyunicorn.Lemmas.RelabelW5
+import Pyunicorn.Lemmas.RelabelBetw5
 import Mathlib.Algebra.BigOperators.Group.List.Basic
 import Mathlib.Data.List.Nodup
 /-!
@@ -379,6 +383,113 @@ theorem net_assortativity_relabel (h : IsPerm n idx) (directed : Bool) (a : Adj)
   rw [sum_ones, sum_ones] at this
   exact_mod_cast this
 
+/-- **local vulnerability** (round 5; was oracle-only): `local_vulnerability()` builds, for every
+node `i`, the graph `self.graph - i` — igraph deletes the vertex and *renumbers the later ones by
+shifting them down* (`removeNode`) — runs the BFS on it and returns `(E − E_i)/E`.  Removing new
+node `i` from the renumbered network and old node `idx i` from the original gives two networks on
+`n − 1` nodes that are renumberings of each other by the conjugated permutation
+`removedPerm idx i = down (idx i) ∘ idx ∘ up i` (a permutation of `0..n-2`); hence the BFS distances
+of the reduced networks correspond, their efficiencies are equal, and the vulnerability of new node
+`i` is that of old node `idx i` — including the `nan` case `E = 0`. -/
+theorem net_vulnerability_relabel (h : IsPerm n idx) (a : Adj) (i : Nat) (hi : i < n) :
+    IsPerm (n - 1) (removedPerm idx i) ∧
+    (∀ x y, x < n - 1 → y < n - 1 →
+      removeNode (mat a idx) i x y = removeNode a (idx i) (removedPerm idx i x) (removedPerm idx i y)) ∧
+    (∀ x y, x < n - 1 → y < n - 1 →
+      dist (n - 1) (removeNode (mat a idx) i) x y
+        = dist (n - 1) (removeNode a (idx i)) (removedPerm idx i x) (removedPerm idx i y)) ∧
+    globalEfficiency (n - 1) (dist (n - 1) (removeNode (mat a idx) i))
+      = globalEfficiency (n - 1) (dist (n - 1) (removeNode a (idx i))) ∧
+    localVulnerability n (mat a idx) i = localVulnerability n a (idx i) :=
+  ⟨removedPerm_isPerm h hi, fun _ _ hx hy => removeNode_relabel h a hi hx hy,
+    dist_removeNode_renumbered h a hi, efficiency_removeNode_relabel h a hi,
+    localVulnerability_relabel h a hi⟩
+
+/-- **cliquishness kernels** (round 5; was oracle-only): `_local_cliquishness_4thorder` /
+`_5thorder` (C03's `cliqLoop`: one neighbour buffer for all nodes, filled in index order, the slots
+beyond the current degree keeping what earlier nodes left there; three / four nested loops over the
+buffer) called as `local_cliquishness(order)` does — `degree` = the row sums of `A` — return on the
+renumbered network the renumbered array: the buffer of new node `i` holds the neighbours of old
+node `idx i` in another order (`nbrs_relabel_perm`), the nested counts do not depend on that order
+(`counter4_perm`, `counter5_perm`), and the stale slots are never read. -/
+theorem net_cliquishness_relabel (h : IsPerm n idx) (order : Nat) (a : Adj) :
+    cliquishness order n (mat a idx) (outdeg n (mat a idx))
+      = nodeList n idx 0 (cliquishness order n a (outdeg n a)) ∧
+    ∀ v, v < n → (cliquishness order n (mat a idx) (outdeg n (mat a idx))).getD v 0
+      = (cliquishness order n a (outdeg n a)).getD (idx v) 0 := by
+  refine ⟨cliquishness_relabel h order a, fun v hv => ?_⟩
+  rw [cliquishness_relabel h order a, nodeList_getD n idx 0 _ v hv]
+
+/-- **link-weighted clustering** (round 5; the `key=` code path of `_motif_clustering_helper` and the
+static `weighted_local_clustering` were oracle / catalogue only): with the link attribute renumbered
+with the nodes (`M[idx][:, idx]`, `M` = the matrix of cubic roots), the four `key=` motif clustering
+coefficients — numerator `t_func(M, Mᵀ).diagonal()` (sparse matrix products), denominator from the
+degrees of the *adjacency* matrix, `0` where it vanishes — and `weighted_local_clustering`
+(`(wA³)_ii / (wA · max(wA) · wA)_ii`, `none` = `nan`) at new node `i` are the old values at `idx i`.
+`wA.max()` is modelled as the code of C03's model computes it, a nested running maximum started at
+entry `[0, 0]` — a *different* entry of the old matrix after renumbering; it is the same number
+because it is an upper bound that is attained (`wMax_spec`). -/
+theorem net_weighted_clustering_relabel (h : IsPerm n idx) (a : Adj) (m w : RMat) (i : Nat)
+    (hi : i < n) :
+    cycleCW n (mat a idx) (mat m idx) i = cycleCW n a m (idx i) ∧
+    midCW n (mat a idx) (mat m idx) i = midCW n a m (idx i) ∧
+    inCW n (mat a idx) (mat m idx) i = inCW n a m (idx i) ∧
+    outCW n (mat a idx) (mat m idx) i = outCW n a m (idx i) ∧
+    wMax n (mat w idx) = wMax n w ∧
+    weightedLocalClustering n (mat w idx) i = weightedLocalClustering n w (idx i) :=
+  have mo := motifW_relabel h a m i
+  ⟨mo.1, mo.2.1, mo.2.2.1, mo.2.2.2, wMax_relabel h w (by omega),
+    weightedLocalClustering_relabel h w i hi⟩
+
+/-- **shortest-path / interregional / n.s.i. betweenness, definition level** (round 5): C03's
+definition `nsiBetweennessDef` — weighted numbers of shortest paths `σ_js`, `σ_js(v)` by recursion
+over the last link and the distance levels, pair dependencies `σ_js(v)/σ_js`, sums over the sources
+`s ≠ v` reachable from target `j` and over the target list, division by `w_v` — for *any* pairwise
+distance function carried with the nodes (`Renumbered`; in particular the BFS distances,
+`net_dist_relabel`): with node weights `w[idx]`, source mask `isSrc[idx]` and the target list
+renumbered through the inverse permutation (list positions kept), the value at new node `v` is the
+old value at `idx v`.  Before, this was a theorem only in the expression language with a carried
+path-count matrix σ; here σ is computed by the model. -/
+theorem net_betweenness_def_relabel (h : IsPerm n idx) (a : Adj) (w : Nat → Rat)
+    (d d' : NetBetw.DistFn) (hd : Renumbered n idx d d') (isSrc : List Bool) (targets : List Nat)
+    (ht : ∀ k ∈ targets, k < n) :
+    (∀ j l, j < n → l < n →
+      NetBetw.sigma n (mat a idx) (vec w idx) d' j l = NetBetw.sigma n a w d (idx j) (idx l)) ∧
+    (∀ j v s, j < n → v < n → s < n →
+      NetBetw.pairDep n (mat a idx) (vec w idx) d' j v s
+        = NetBetw.pairDep n a w d (idx j) (idx v) (idx s)) ∧
+    NetBetw.nsiBetweennessDef n (mat a idx) (vec w idx) d' (nodeList n idx false isSrc)
+        (nodes n idx targets)
+      = nodeList n idx 0 (NetBetw.nsiBetweennessDef n a w d isSrc targets) :=
+  ⟨fun j l hj hl => sigma_relabel h a w d d' hd j l hj hl,
+   fun j v s hj hv hs => pairDep_relabel h a w d d' hd j v s hj hv hs,
+   nsiBetweennessDef_relabel h a w d d' hd isSrc targets ht⟩
+
+/-- **partial.**  Full statement: for every undirected simple network, positive node weights,
+source mask and target list, C03's kernel model of `_nsi_betweenness` (`NetBetw.nsiBetweenness`:
+flattened neighbour lists, Brandes-type forward sweep with a queue in discovery order, backward sweep
+over the reversed queue, accumulation over the targets in list order, division by `w`) run on the
+renumbered network with `w[idx]`, `isSrc[idx]` and the renumbered target list returns the renumbered
+array.  Proved here: this follows for every input on which C03's own open obligation holds for both
+numberings — `sweepDiff = contribDef`, i.e. the two sweeps for one target compute that target's
+contribution to the definition (hypothesis of C03's `nsiBetweenness_eq_def_partial`; the assembly
+over targets and the wrapper are proved there for all inputs).  Missing: that obligation itself; the
+sweeps visit the nodes in an order that depends on the numbering, so a direct proof needs the
+order-independence of the queue discipline.  The hypotheses are checked on every generated case by
+the `betw` correspondence (kernel model == definition == implementation on both numberings). -/
+theorem net_betweenness_kernel_relabel_partial (h : IsPerm n idx) (a : Adj) (w : Nat → Rat)
+    (isSrc : List Bool) (targets : List Nat) (ht : ∀ k ∈ targets, k < n)
+    (hk : ∀ j, j ∈ targets → ∀ l, l < n →
+      NetBetw.sweepDiff n a w isSrc j l = NetBetw.contribDef n a w (dist n a) isSrc j l)
+    (hk' : ∀ j, j ∈ nodes n idx targets → ∀ l, l < n →
+      NetBetw.sweepDiff n (mat a idx) (vec w idx) (nodeList n idx false isSrc) j l
+        = NetBetw.contribDef n (mat a idx) (vec w idx) (dist n (mat a idx))
+            (nodeList n idx false isSrc) j l) :
+    NetBetw.nsiBetweenness n (mat a idx) (vec w idx) (nodeList n idx false isSrc)
+        (nodes n idx targets)
+      = nodeList n idx 0 (NetBetw.nsiBetweenness n a w isSrc targets) :=
+  nsiBetweenness_relabel_of_sweeps h a w isSrc targets ht hk hk'
+
 /-! ## C11 model: cross / internal measures, node lists renumbered with the network -/
 open Pyunicorn.Cross
 
@@ -742,6 +853,56 @@ theorem rec_intersystem_relabel {Nx Ny : Nat} {idy : Nat → Nat} (hx : IsPerm N
   ⟨joinPerm_isPerm hx hy, fun a b ha hb =>
     intersystem_relabel hx hy m ex ey hnx hny epsx epsy t mv M M' hM hM' a b ha hb⟩
 
+/-- **joint recurrence network at fixed recurrence rates, lag 0** (round 5; was oracle-only):
+`JointRecurrencePlot.set_fixed_recurrence_rate` thresholds each system's distance matrix at its own
+order statistic (`threshold_from_recurrence_rate`, C07's `fixedRate`) and multiplies,
+`JR = recurrence_x * recurrence_y`.  For two trajectories reordered by the same permutation the
+two constructions succeed or raise IndexError together (`none`), and the matrix of the reordered
+trajectories is the renumbered one. -/
+theorem rec_joint_rate_relabel (h : IsPerm n idx) (mx my : Metric) (ex ey : List (List V))
+    (hnx : ex.length = n) (hny : ey.length = n) (kx ky : Nat) (a b : Nat) (ha : a < n)
+    (hb : b < n) :
+    ((fixedRate (distRP mx (rows n idx ex)) kx).bind fun Rx =>
+      (fixedRate (distRP my (rows n idx ey)) ky).bind fun Ry =>
+        (hadamard Rx Ry).bind fun R => entry R a b)
+      = ((fixedRate (distRP mx ex) kx).bind fun Rx =>
+          (fixedRate (distRP my ey) ky).bind fun Ry =>
+            (hadamard Rx Ry).bind fun R => entry R (idx a) (idx b)) :=
+  joint_rate_relabel h mx my ex ey hnx hny kx ky a b ha hb
+
+/-- **inter-system recurrence network at fixed recurrence rates** (round 5; was oracle-only):
+`InterSystemRecurrenceNetwork.set_fixed_recurrence_rate` builds two `RecurrencePlot`s and one
+`CrossRecurrencePlot`, each thresholded at an order statistic of its own (for the cross plot: of
+the *rectangular* `Nx × Ny` cross-distance matrix, whose rows and columns are reordered by two
+different permutations), then assembles the blocks.  The cross-rate threshold does not depend on
+the order of either system (`tab_flatten_perm2`); each of the three plots succeeds or raises
+IndexError for both orders alike; and the assembled matrix of the reordered systems is the
+original one renumbered by `joinPerm`. -/
+theorem rec_intersystem_rate_relabel {Nx Ny : Nat} {idy : Nat → Nat} (hx : IsPerm Nx idx)
+    (hy : IsPerm Ny idy) (m : Metric) (ex ey : List (List V)) (hnx : ex.length = Nx)
+    (hny : ey.length = Ny) (kx ky kxy : Nat) :
+    quantileAt (distCRP m (rows Nx idx ex) (rows Ny idy ey)).flatten kxy
+      = quantileAt (distCRP m ex ey).flatten kxy ∧
+    (fixedRate (distRP m (rows Nx idx ex)) kx).isSome = (fixedRate (distRP m ex) kx).isSome ∧
+    (fixedRate (distRP m (rows Ny idy ey)) ky).isSome = (fixedRate (distRP m ey) ky).isSome ∧
+    (fixedRate (distCRP m (rows Nx idx ex) (rows Ny idy ey)) kxy).isSome
+      = (fixedRate (distCRP m ex ey) kxy).isSome ∧
+    ∀ Rx Ry CR Rx' Ry' CR' M M',
+      fixedRate (distRP m ex) kx = some Rx → fixedRate (distRP m ey) ky = some Ry →
+      fixedRate (distCRP m ex ey) kxy = some CR →
+      fixedRate (distRP m (rows Nx idx ex)) kx = some Rx' →
+      fixedRate (distRP m (rows Ny idy ey)) ky = some Ry' →
+      fixedRate (distCRP m (rows Nx idx ex) (rows Ny idy ey)) kxy = some CR' →
+      isrm Nx Ny Rx Ry CR = some M → isrm Nx Ny Rx' Ry' CR' = some M' →
+      ∀ a b, a < Nx + Ny → b < Nx + Ny →
+        entry M' a b = entry M (joinPerm Nx idx idy a) (joinPerm Nx idx idy b) :=
+  ⟨quantile_distCRP_relabel hx hy m ex ey hnx hny kxy,
+   fixedRate_isSome_relabel hx m ex hnx kx, fixedRate_isSome_relabel hy m ey hny ky,
+   fixedRate_cross_isSome_relabel hx hy m ex ey hnx hny kxy,
+   fun Rx Ry CR Rx' Ry' CR' M M' h1 h2 h3 h4 h5 h6 hM hM' a b ha hb =>
+    intersystem_rate_relabel hx hy m ex ey hnx hny kx ky kxy Rx Ry CR Rx' Ry' CR' M M'
+      h1 h2 h3 h4 h5 h6 hM hM' a b ha hb⟩
+
 /-! ### non-vacuity -/
 
 def exPerm : Nat → Nat := fun a => [2, 0, 3, 1].getD a a
@@ -764,6 +925,34 @@ example : coreness 4 exAdj false = [1, 1, 1, 0] ∧
 example : edgeList false 4 exAdj = [(0, 1), (1, 2)] ∧
     edgeList false 4 (mat exAdj exPerm) = [(0, 3), (1, 3)] ∧
     assortativity false 4 exAdj = some (-1) := by decide +kernel
+/-- `K₄` on 0,1,2,3 with the pendant node 4 attached to 0 -/
+def exAdj5 : Net.Adj := fun i j => i != j && ((i < 4 && j < 4) || (i + j == 4 && i * j == 0))
+def exPerm5 : Nat → Nat := fun a => [4, 2, 0, 3, 1].getD a a
+example : IsPerm 5 exPerm5 := by unfold IsPerm; decide
+example : (List.range 4).map (removedPerm exPerm5 2) = [3, 1, 2, 0] ∧
+    (List.range 4).map (removedPerm exPerm5 0) = [2, 0, 3, 1] := by decide
+example : localVulnerability 5 (mat exAdj5 exPerm5) 2 = localVulnerability 5 exAdj5 0 ∧
+    localVulnerability 5 exAdj5 0 ≠ localVulnerability 5 exAdj5 1 ∧
+    localVulnerability 5 exAdj5 0 ≠ none := by decide +kernel
+example : cliquishness 4 5 exAdj5 (outdeg 5 exAdj5) = [1/4, 1, 1, 1, 0] ∧
+    cliquishness 4 5 (mat exAdj5 exPerm5) (outdeg 5 (mat exAdj5 exPerm5)) = [0, 1, 1/4, 1, 1] := by
+  decide +kernel
+/-- triangle 0,1,2 with weights 1, 2, 3 (symmetric) and the pendant link 0 — 4 of weight 5 -/
+def exW5 : Net.RMat := fun i j =>
+  if (i, j) ∈ [(0, 1), (1, 0)] then 1 else if (i, j) ∈ [(1, 2), (2, 1)] then 2
+  else if (i, j) ∈ [(0, 2), (2, 0)] then 3 else if (i, j) ∈ [(0, 4), (4, 0)] then 5 else 0
+example : wMax 5 exW5 = 5 ∧ wMax 5 (mat exW5 exPerm5) = 5 ∧ exW5 0 0 = 0 ∧
+    weightedLocalClustering 5 exW5 1 = some (4 / 15) ∧
+    weightedLocalClustering 5 (mat exW5 exPerm5) 4 = some (4 / 15) ∧
+    weightedLocalClustering 5 exW5 3 = none := by decide +kernel
+/-- betweenness on the path 0 — 1 — 2 (+ isolated 3): the middle node lies on the two shortest
+paths between the ends; after renumbering it is node 3 -/
+example : NetBetw.nsiBetweennessDef 4 exAdj (fun _ => 1) (dist 4 exAdj) [true, true, true, true]
+      [0, 1, 2, 3] = [0, 2, 0, 0] ∧
+    NetBetw.nsiBetweennessDef 4 (mat exAdj exPerm) (fun _ => 1) (dist 4 (mat exAdj exPerm))
+      (nodeList 4 exPerm false [true, true, true, true]) (nodes 4 exPerm [0, 1, 2, 3]) = [0, 0, 0, 2] ∧
+    NetBetw.nsiBetweenness 4 exAdj (fun _ => 1) [true, true, true, true] [0, 1, 2, 3] = [0, 2, 0, 0] := by
+  decide +kernel
 example : nodes 4 exPerm [0, 3] = [1, 2] ∧ (nodes 4 exPerm [0, 3]).map exPerm = [0, 3] := by
   decide +kernel
 /-- links of the path 0 — 1 — 2 listed in two different orders / orientations -/
@@ -782,6 +971,17 @@ example : IsPerm 3 (fun a => [2, 0, 1].getD a a) ∧
     rows 3 (fun a => [2, 0, 1].getD a a) ([[some 0], [some 1], [some 3]] : List (List V))
       = [[some 3], [some 0], [some 1]] := by
   refine ⟨by unfold IsPerm; decide, rfl, by decide⟩
+/-- the rate variants are not vacuous: a `3 × 3` distance matrix has order statistics `0..8`
+(`k = 9` raises IndexError), a `3 × 2` cross-distance matrix `0..5` -/
+example : (fixedRate (distRP .supremum ([[some 0], [some 1], [some 3]] : List (List V))) 4).isSome = true ∧
+    (fixedRate (distCRP .supremum ([[some 0], [some 1], [some 3]] : List (List V))
+      [[some 1], [some 2]]) 5).isSome = true ∧
+    (fixedRate (distRP .supremum ([[some 0], [some 1], [some 3]] : List (List V))) 9).isSome = false := by
+  refine ⟨?_, ?_, ?_⟩
+  · unfold fixedRate; rw [Option.isSome_map, quantileAt_isSome]; decide
+  · unfold fixedRate; rw [Option.isSome_map, quantileAt_isSome]; decide
+  · unfold fixedRate
+    rw [Option.isSome_map, Bool.eq_false_iff, ne_eq, quantileAt_isSome]; decide
 example : IsNetwork 3 (fun i j => i != j) (fun _ _ => 1) :=
   ⟨fun i j _ _ => by simp [bne_comm], fun _ _ _ _ => rfl, fun _ _ _ _ _ => by norm_num⟩
 
